@@ -95,7 +95,7 @@ META = dict(
     text="Theorems over every op sequence and every schedule of the interleaving semantics (any number of goroutines): per txid processed+queued+in-flight sends+drops = [received] "
          "(at most once always, exactly once at quiescence without interrupt), SaveTx calls = relevant ProcessTx calls, two grants of one txid are >= time-out apart, no grant after delivery, "
          "a denied announcer stays recorded until it is granted and GetTxRequests returns exactly the eligible txids when it returns fewer than max. "
-         "The model is tied to tx_manager.go by differential runs in three clock regimes and by concurrent stress runs checked by the monitor.",
+         "The model is tied to tx_manager.go by differential runs in three clock regimes and by concurrent stress runs checked by the monitor (announcement storms and stress ops with follow-up polls after the time-out, a Clean running beside them), by the regenerated critical sections of AddTxID / AddTx / GetTxRequests / Clean (C06_critical_sections_in_source), and by a monitor-only stream of 49999..100001-entry inventories through a real node (handleInventory batching).",
     note=COMMON_NOTE + "Excluded and stated in Props/C06.lean: Clean and interrupt. GetTxRequests used to stamp LastRequested with the clock value read when the call "
          "STARTED (two requests within one time-out when a poll outlasted it); repaired in /repo 9c84f1c, the model stamps the clock of the entry section, "
          "C06_conc_single_outstanding is the full real-time statement, C06_old_formula_stale_stamp_anomaly documents the old formula and corpus/C06/tx-stale-stamp.ops "
